@@ -24,6 +24,7 @@ class Intrinsics:
             self.cache[n] = fn
         if fn is None: return NotImplemented
         M.models_used.add(fn.__name__.lstrip('_') + ':' + re.sub(r'<.*', '', n)[:60])
+        M.cur_callee = callee
         return fn(M, fr, n, args)
 
 INTRINSICS = Intrinsics()
@@ -338,14 +339,60 @@ def _peek(M, fr, n, a):
     if it.f[1] is None:
         okk, x = it_next(M, fr, it.f[0]); it.f[1] = [okk, x]
     return some(Ref(Cell(it.f[1]), (('i', 1),))) if it.f[1][0] else none()
-@reg(r'^<.* as std::iter::Iterator>::collect$|^<std::vec::Vec<.*> as std::iter::FromIterator<.*>>::from_iter$')
+@reg(r'^<.* as std::iter::Iterator>::collect$|^<.* as std::iter::FromIterator<.*>>::from_iter$')
 def _collect(M, fr, n, a):
-    items = drain_all(M, fr, to_iter(M, fr, a[0]))
-    m = re.search(r'::collect::<(.*)>$', fr_callee_tail(n)) if False else None
-    return collect_into(M, fr, n, items)
-def fr_callee_tail(n): return n
-def collect_into(M, fr, n, items):
-    tgt = M.__dict__.get('_collect_target')
+    callee = M.cur_callee
+    m = re.search(r'::collect::<(.*)>$', callee)
+    tgt = m.group(1) if m else None
+    if tgt is None:
+        m = re.match(r'^<(.*) as std::iter::FromIterator<.*>>::from_iter', callee)
+        tgt = m.group(1) if m else 'std::vec::Vec<_>'
+    it = to_iter(M, fr, a[0])
+    return collect_into(M, fr, tgt, it)
+def collect_into(M, fr, tgt, it):
+    tgt = tgt.strip()
+    if tgt.startswith('std::result::Result<'):
+        from .mirread import split_top
+        inner = split_top(tgt[len('std::result::Result<'):-1])[0]
+        oks = []
+        while True:
+            okk, x = it_next(M, fr, it)
+            if not okk: break
+            if disc_of(M, x) == 1: return err(x.f[0])
+            oks.append(x.f[0])
+        return ok(collect_into(M, fr, inner, IterV(oks)))
+    if tgt.startswith('std::option::Option<'):
+        inner = tgt[len('std::option::Option<'):-1]
+        oks = []
+        while True:
+            okk, x = it_next(M, fr, it)
+            if not okk: break
+            if disc_of(M, x) == 0: return none()
+            oks.append(x.f[0])
+        return some(collect_into(M, fr, inner, IterV(oks)))
+    items = drain_all(M, fr, it)
+    if tgt.startswith('std::string::String'):
+        out = []
+        for x in items:
+            x = M.deref(x) if isinstance(x, Ref) else x
+            if isinstance(x, Str): out.extend(x.b)
+            else: out.extend(encode_char(M, x))
+        return Str(out)
+    if tgt.startswith(('std::collections::HashMap', 'std::collections::BTreeMap')):
+        hm = VecV()
+        for kv in items:
+            i = hm_lookup(M, fr, hm, kv.f[0])
+            if i < 0: hm.items.append(Agg('()', [kv.f[0], kv.f[1]]))
+            else: hm.items[i].f[1] = kv.f[1]
+        return hm
+    if tgt.startswith(('std::collections::HashSet', 'std::collections::BTreeSet')):
+        hs = VecV()
+        for x in items:
+            dup = False
+            for e in hs.items:
+                if M.branch(val_eq(M, fr, e, x)): dup = True; break
+            if not dup: hs.items.append(x)
+        return hs
     return VecV(items)
 @reg(r'^<std::vec::Vec<.*> as std::iter::Extend<.*>>::extend$')
 def _extend(M, fr, n, a):
@@ -673,6 +720,7 @@ def _default(M, fr, n, a):
     if t.startswith(('std::vec::Vec', 'std::collections::Hash', 'std::collections::BTree', 'std::collections::VecDeque')): return VecV()
     if t == 'std::string::String': return Str('')
     if t == '()': return UNIT
+    if re.search(r' as (dsl::)?visitor::Visitor<.*>>::Value$', t): return UNIT      # every Visitor impl in the workspace declares `type Value = ()`
     raise Unsupported('Default for ' + t)
 @reg(r'^core::intrinsics::discriminant_value$|^std::intrinsics::discriminant_value$|^std::mem::discriminant$')
 def _discr(M, fr, n, a):
@@ -1146,3 +1194,49 @@ def _string_mut(M, fr, n, a):
     if op == 'truncate':
         k = simp(a[1]); s.b = s.b[:k]; return UNIT
     raise Unsupported('String::' + op)
+
+@reg(r'^<std::vec::Vec<.*> as std::ops::Index<std::ops::RangeFull>>::index$|^<\[.*\] as std::ops::Index<std::ops::RangeFull>>::index$')
+def _index_full(M, fr, n, a): return a[0]
+
+# vec![a, b, ..] lowering in current nightlies: Box::new_uninit -> aligned/non-null asserts on the raw pointer -> write of the
+# array through (*ptr).1.0.0 -> box_assume_init_into_vec_unsafe
+@reg(r'^std::boxed::Box::<\[.*\]>::new_uninit$|^std::boxed::Box::new_uninit$')
+def _box_new_uninit(M, fr, n, a):
+    return Ref(Cell(Agg('MaybeUninit', [UNIT, Agg('ManuallyDrop', [Agg('MaybeDangling', [None])])])))
+@reg(r'^std::boxed::box_assume_init_into_vec_unsafe$')
+def _box_into_vec(M, fr, n, a):
+    x = M.deref(a[0]); arr = x.f[1].f[0].f[0]
+    if arr is None: raise Unsupported('uninitialised box turned into vec')
+    return VecV(list(arr.f))
+
+def _g_nodes(a):
+    u = simp(a.f[0]); 
+    if is_sym(u): raise Unsupported('symbolic node index')
+    return u
+@reg(r'^petgraph::(prelude|stable_graph)::StableGraph::(<.*>::)?(find_edge|contains_edge)$')
+def _g_find_edge(M, fr, n, a):
+    g = D(M, a[0]); u = _g_nodes(a[1]); v = _g_nodes(a[2])
+    for i, e in enumerate(g.f[1].items):
+        if e == (u, v): return True if n.endswith('contains_edge') else some(Agg('EdgeIndex', [i]))
+    return False if n.endswith('contains_edge') else none()
+@reg(r'^petgraph::(prelude|stable_graph)::StableGraph::(<.*>::)?find_edge_undirected$')
+def _g_find_edge_undirected(M, fr, n, a):
+    g = D(M, a[0]); u = _g_nodes(a[1]); v = _g_nodes(a[2])
+    for i, e in enumerate(g.f[1].items):
+        if e == (u, v): return some(Agg('()', [Agg('EdgeIndex', [i]), EnumV('Direction', 0, [])]))
+    for i, e in enumerate(g.f[1].items):
+        if e == (v, u): return some(Agg('()', [Agg('EdgeIndex', [i]), EnumV('Direction', 1, [])]))
+    return none()
+@reg(r'^petgraph::(prelude|stable_graph)::StableGraph::(<.*>::)?update_edge$')
+def _g_update_edge(M, fr, n, a):
+    g = D(M, a[0]); u = _g_nodes(a[1]); v = _g_nodes(a[2])
+    for i, e in enumerate(g.f[1].items):
+        if e == (u, v): return Agg('EdgeIndex', [i])
+    g.f[1].items.append((u, v)); return Agg('EdgeIndex', [len(g.f[1].items) - 1])
+@reg(r'^petgraph::(prelude|stable_graph)::StableGraph::(<.*>::)?(node_count|edge_count)$')
+def _g_count(M, fr, n, a):
+    g = D(M, a[0]); return len(g.f[0].items) if n.endswith('node_count') else len(g.f[1].items)
+@reg(r'^petgraph::algo::is_cyclic_directed$')
+def _g_is_cyclic(M, fr, n, a):
+    g = D(M, a[0]); E = set(g.f[1].items)
+    return any(_reaches(x, x, E) for x in range(len(g.f[0].items)))
